@@ -36,3 +36,43 @@ impl<T> RawTable<T> {
 pub open spec fn full_pred(c: Seq<u8>) -> spec_fn(int) -> bool {
     |j: int| c[j] < 0x80u8
 }
+
+// RawExtractIf { iter: RawIter<T>, table: &mut RawTable<T, A> }: the borrowed table is an owned field here (the
+// borrow itself is the compiler's business).  `iter` is the enumeration taken when extract_if was called.
+pub struct RawExtractIf<T> { pub iter: RawIter<T>, pub table: RawTable<T> }
+impl<T> RawTable<T> {
+    /// the element stored in bucket i
+    pub uninterp spec fn elem_at(&self, i: int) -> T;
+    // contract of RawTable::remove: proved in unit glue (control bytes and counters); the element moved out is the
+    // one in the bucket (ptr::read of that bucket: B / R)
+    #[verifier::external_body]
+    pub fn remove(&mut self, item: Bucket<T>) -> (r: (T, InsertSlot))
+        requires
+            old(self).table.shape(), old(self).table.mirrored(),
+            0 <= item.index@ < old(self).table.nb(),
+            old(self).table.ctrl@[item.index@] < 0x80,
+            old(self).table.items > 0, old(self).table.growth_left < usize::MAX,
+        ensures
+            final(self).table.shape(), final(self).table.mirrored(),
+            final(self).table.bucket_mask == old(self).table.bucket_mask,
+            final(self).table.items == old(self).table.items - 1,
+            r.1.index as int == item.index@, r.0 == old(self).elem_at(item.index@),
+            final(self).table.ctrl@[item.index@] == 0xFFu8 || final(self).table.ctrl@[item.index@] == 0x80u8,
+            final(self).table.growth_left <= old(self).table.growth_left + 1,
+            final(self).table.ctrl@ == old(self).table.ctrl@.update(item.index@, final(self).table.ctrl@[item.index@]).update(old(self).table.mirror_index(item.index@), final(self).table.ctrl@[item.index@]),
+            forall|j: int| j != item.index@ ==> final(self).elem_at(j) == old(self).elem_at(j),
+    { unimplemented!() }
+}
+impl<T> RawExtractIf<T> {
+    /// what extract_if sets up and every `next` keeps: the not yet visited part of the enumeration is FULL
+    pub open spec fn wf(&self) -> bool {
+        let s = self.iter.s@; let t = self.table.table;
+        &&& t.shape() && t.mirrored()
+        &&& 0 <= self.iter.pos@ <= s.len() && s.len() <= t.nb()
+        &&& forall|k: int| 0 <= k < s.len() ==> 0 <= #[trigger] s[k] < t.nb()
+        &&& forall|k: int| self.iter.pos@ <= k < s.len() ==> t.ctrl@[#[trigger] s[k]] < 0x80u8
+        &&& forall|a: int, b: int| 0 <= a < b < s.len() ==> s[a] < s[b]
+        &&& t.items as int >= s.len() - self.iter.pos@
+        &&& t.growth_left as int <= t.nb() + self.iter.pos@
+    }
+}
